@@ -97,11 +97,31 @@ func Spec() *run.Spec {
 			"rejected_vec_updates_with_decodable_prefix": total / 20,
 			"binary_artifact_reads":                      total / 50,
 			"histories_lock_contended":                   total / 4,
+			"http_histories":                             200,
+			"http_requests":                              4000,
+			"http_started_reads":                         2000,
+			"http_zip_files_read":                        200,
+			"http_websocket_clients":                     50,
 		},
 		Phases: []run.Phase{
 			{Name: "linearize", Cases: linCases, Run: history, Batch: 10, CPUBudgetS: 60, StallViolation: true,
 				Env: func(b int) []string { return []string{"GOMAXPROCS=" + []string{"16", "4", "2", "8"}[b%4]} }},
 			{Name: "race", Race: true, Cases: raceCases, Run: history, Batch: 5, CPUBudgetS: 60, StallViolation: true, Parallel: 6,
+				Env: func(b int) []string { return []string{"GOMAXPROCS=" + []string{"2", "4", "16"}[b%3]} }},
+			// the same histories as real HTTP requests against the real edit server (App.Run "edit")
+			{Name: "http-linearize", Cases: func(t string) int {
+				if t == "thorough" {
+					return 6000
+				}
+				return 400
+			}, Run: httpHistory, Batch: 10, CPUBudgetS: 60, StallViolation: true,
+				Env: func(b int) []string { return []string{"GOMAXPROCS=" + []string{"4", "16", "2", "8"}[b%4]} }},
+			{Name: "http-race", Race: true, Cases: func(t string) int {
+				if t == "thorough" {
+					return 600
+				}
+				return 60
+			}, Run: httpHistory, Batch: 5, CPUBudgetS: 60, StallViolation: true, Parallel: 6,
 				Env: func(b int) []string { return []string{"GOMAXPROCS=" + []string{"2", "4", "16"}[b%3]} }},
 		},
 	}
@@ -129,6 +149,7 @@ type planOp struct {
 	Pre   int32  // pause before the call: <0 = -k yields, >0 microseconds
 	Mid   int32  // artifact reads: pause between Artifact() returning and Write (same encoding)
 	BadAt int    // vector parameters: index of the element of a rejected update that has the wrong type
+	Zip   bool   // http phases: GET /zip (every producer's artifact in one request) instead of one producer
 }
 
 // recorded operation
@@ -139,6 +160,8 @@ type recOp struct {
 	Call   int64  `json:"call"`
 	Ret    int64  `json:"ret"`
 	Out    string `json:"out"`
+	Status int    `json:"status,omitempty"` // http phases
+	Fail   string `json:"fail,omitempty"`   // http phases: transport-level failure
 	plan   planOp
 	ok     bool
 	err    bool
@@ -214,7 +237,12 @@ func bucket(n int) string {
 	return "7-8"
 }
 
-func history(c *run.Ctx) run.Result {
+func history(c *run.Ctx) run.Result { return runHistory(c, false) }
+
+// httpHistory: the same histories issued as real HTTP requests against the real edit server.
+func httpHistory(c *run.Ctx) run.Result { return runHistory(c, true) }
+
+func runHistory(c *run.Ctx, viaHTTP bool) run.Result {
 	var res run.Result
 	r := c.Rng
 
@@ -226,7 +254,7 @@ func history(c *run.Ctx) run.Result {
 		d = randomGraph(r)
 	}
 	intensity := 1 + r.Intn(4)
-	lv := build(d, r, intensity)
+	lv := build(d, r, intensity, viaHTTP)
 	reachable, twoRoutes := d.reach()
 	var targets []int
 	for k, ok := range reachable {
@@ -290,6 +318,7 @@ func history(c *run.Ctx) run.Result {
 				default:
 					op.Mid = int32(5 + r.Intn(80*intensity))
 				}
+				op.Zip = viaHTTP && r.Intn(8) == 0
 			}
 			mix[op.Kind]++
 			switch x := r.Intn(10); {
@@ -316,8 +345,20 @@ func history(c *run.Ctx) run.Result {
 		}
 	}
 
+	var srv *server
+	var obs *observers
+	if viaHTTP {
+		var err error
+		if srv, err = startServer(lv.app); err != nil {
+			res.Inconclusive = "set-up: the edit server did not come up: " + err.Error()
+			return res
+		}
+		defer srv.tr.CloseIdleConnections()
+		obs = srv.observe(1+r.Intn(2), r.Intn(2) == 0)
+	}
+
 	// ---- run the clients ----------------------------------------------------------------
-	c.Note(fmt.Sprintf("history: %s, %d clients, %d ops", d.sig(), nClients, mix[0]+mix[1]+mix[2]))
+	c.Note(fmt.Sprintf("history: %s, %d clients, %d ops, http=%v", d.sig(), nClients, mix[0]+mix[1]+mix[2], viaHTTP))
 	recs := make([][]recOp, nClients)
 	start := make(chan struct{})
 	var wg sync.WaitGroup
@@ -337,6 +378,10 @@ func history(c *run.Ctx) run.Result {
 				}
 				rec := recOp{Client: ci, Op: opName[op.Kind], plan: op}
 				var pn *run.PanicInfo
+				if viaHTTP {
+					recs[ci] = append(recs[ci], httpOp(srv, d, lv, rec)...)
+					continue
+				}
 				switch op.Kind {
 				case opUpdate:
 					payload := encodeParam(d.Params[op.Param].Kind, op.Val)
@@ -395,7 +440,17 @@ func history(c *run.Ctx) run.Result {
 		}(ci)
 	}
 	close(start)
-	if dl := waitOrDeadlock(&wg); dl != nil {
+	dl := waitOrDeadlock(&wg)
+	if obs != nil && dl == nil {
+		obs.finish()
+		res.Count("http_started_reads", atomic.LoadInt64(&obs.started))
+		res.Count("http_websocket_frames", atomic.LoadInt64(&obs.wsFrames))
+		res.Count("http_websocket_clients", int64(atomic.LoadInt32(&obs.wsOK)))
+		if f := atomic.LoadInt64(&obs.failures); f > 0 {
+			res.Violate("http-error", "edit server GET /started", "concurrent clients", fmt.Sprintf("%d of the observer's GET /started requests failed or were not answered 200 while the history ran", f), nil)
+		}
+	}
+	if dl != nil {
 		// The clients can never return; their records are incomplete and still being owned by
 		// them, so nothing else of this history is evaluated.
 		res.Count("histories", 1)
@@ -415,8 +470,34 @@ func history(c *run.Ctx) run.Result {
 	sort.Slice(all, func(i, j int) bool { return all[i].Call < all[j].Call })
 	wit := func() any { return map[string]any{"graph": d, "history": all} }
 	site := "graph.Instance UpdateParameter/ParameterData/Artifact"
+	if viaHTTP {
+		site = "edit server POST/GET /parameter/value, GET /producer/value, GET /zip"
+		res.Count("http_histories", 1)
+		res.Count("http_requests", int64(mix[0]+mix[1]+mix[2]))
+	}
 
 	panicked := false
+	for _, op := range all {
+		if !viaHTTP {
+			break
+		}
+		route := map[string]string{"update": "POST /parameter/value/", "read": "GET /parameter/value/", "artifact": "GET /producer/value/"}[op.Op]
+		if op.plan.Zip {
+			route = "GET /zip"
+			res.Count("http_zip_files_read", 1)
+		}
+		if op.Fail != "" {
+			panicked = true // the history is incomplete: not handed to the checker
+			res.Violate("request-failed", "edit server "+route, "concurrent clients",
+				fmt.Sprintf("client %d %s(%s): the request got no proper answer (crashed handler/server, reset or hung connection): %s", op.Client, op.Op, op.Arg, op.Fail), wit())
+			continue
+		}
+		wellFormed := !(op.plan.Kind == opUpdate && op.plan.Bad)
+		if wellFormed && (op.Status < 200 || op.Status > 299) {
+			res.Violate("http-error", "edit server "+route, "concurrent clients",
+				fmt.Sprintf("client %d %s(%s): a well-formed request was answered %d %q", op.Client, op.Op, op.Arg, op.Status, op.Out), wit())
+		}
+	}
 	for _, op := range all {
 		if op.panicV != "" {
 			panicked = true
@@ -675,7 +756,10 @@ func allParked() *deadlock {
 	entries := map[string]bool{}
 	var sample []string
 	for _, g := range strings.Split(string(buf[:n]), "\n\n") {
-		if !strings.Contains(g, "github.com/EliCDavis/polyform/") {
+		// the goroutines that matter are those inside one of the three entry points (clients
+		// calling graph.Instance directly, or the edit server's request handlers); the
+		// server's accept loop and websocket hub also carry polyform frames and idle forever
+		if !strings.Contains(g, "polyform/generator/graph.(*Instance).") {
 			continue
 		}
 		headEnd := strings.Index(g, "\n")
